@@ -153,6 +153,20 @@ class LDriver(CL.Driver):
     (succeed(x).addCallback(lambda _: pending)): to the consumer a pending result (model code 2; EV_PROC_FIRE fires the
     inner one).  plan result 4: it returns a Deferred that already failed (model code 1, same as raising)."""
 
+    def step(self, ev):
+        if ev[0] == EV_PROC_FIRE and ev[1] == 2 and self.enabled(ev):
+            # the Deferred the processor returned fails with CancelledError although the consumer did not cancel it (the
+            # processor's own timeout, a cancelled call inside it): to the consumer - and the model - a failure like any other
+            from twisted.internet.defer import CancelledError
+            from twisted.python.failure import Failure
+            self.step_no += 1
+            d = self.procs[0]
+            d.errback(Failure(CancelledError()))
+            self.procs = [x for x in self.procs if not x.called]
+            self.out(CL.OUT_END, CL.v(self.consumer.last_processed_offset), CL.v(self.consumer.last_committed_offset))
+            return
+        return CL.Driver.step(self, ev)
+
     def processor(self, consumer, msgs):
         from twisted.internet.defer import Deferred, fail, succeed
         from twisted.python.failure import Failure
@@ -171,10 +185,77 @@ class LDriver(CL.Driver):
         return r
 
 
+class RDriver(LDriver):
+    """implementation-side family (no model: callbacks of the application that re-enter the consumer are outside it):
+    the application's errback on the Deferred of start() reacts to a failure by stop() followed at once by
+    start(next restart offset) on the same Consumer.  Records the lives: (start offset, [blocks handed on during it])."""
+
+    def __init__(self, cfg, restart_offsets=(), **kw):
+        LDriver.__init__(self, cfg, **kw)
+        self.restart_offsets = list(restart_offsets)
+        self.lives = []                  # [start offset, [block, ...], restarted from an errback?]
+        c = self.consumer
+        orig_start = c.start
+
+        def start(offset):
+            d = orig_start(offset)
+            self.lives.append([offset, [], False])
+
+            def app_errback(f):
+                if self.restart_offsets and c._start_d is d:
+                    off = self.restart_offsets.pop(0)
+                    try:
+                        c.stop()
+                    except Exception:
+                        pass
+                    c.start(off)
+                    self.lives[-1][2] = True
+                return None
+            d.addErrback(app_errback)
+            return d
+        c.start = start
+
+    def processor(self, consumer, msgs):
+        if self.lives:
+            self.lives[-1][1].append([m.offset for m in msgs])
+        return LDriver.processor(self, consumer, msgs)
+
+
+def probe_restart_in_errback(mode):
+    """F-C03-3 witness.  mode "async": the Deferred the processor returned fails; "sync": the processor raises.
+    -> (observed, delivered, commit request offsets)"""
+    cfg = CL.Cfg(group=1, acn=2)
+    drv = RDriver(cfg, restart_offsets=[100])
+    drv.values_seen = []
+    evs = [(EV_START, 0), (EV_PLAN, 0, 2 if mode == "async" else 1), (EV_PLAN, 0, 0), (EV_PLAN, 0, 0),
+           (EV_FETCH_OK, [0, 1, 2, 3, 4, 5], False)] + ([(EV_PROC_FIRE, 0)] if mode == "async" else [])
+    for ev in evs:
+        drv.step(ev)
+    sent = [a[0] for (_, w, a) in drv.sent if w == "commit"]
+    obs = drv.delivered != [0, 1] or bool(sent) or drv.consumer.last_processed_offset is not None
+    return obs, drv.delivered, sent
+
+
+def mon_lives(lives, entries):
+    """every life receives a prefix of the log from ITS start position, whatever happened to the previous life"""
+    offs_log = [o for (o, k, v) in entries]
+    for n, (st, blocks, restarted) in enumerate(lives):
+        if st < 0:
+            continue
+        got = [x for b in blocks for x in b]
+        want = [x for x in offs_log if x >= st][:len(got)]
+        if got != want:
+            return ("life %d (start(%d)%s) was handed %r; the log holds %r from there"
+                    % (n, st, ", started from the errback of the previous life's start Deferred" if restarted else "", got[:10], want[:10]))
+    return None
+
+
 def model_event(ev):
     """the event as Model/Consumer.v knows it (processor results 3 / 4 are its 2 / 1)"""
     if ev[0] == EV_PLAN and ev[2] in (3, 4):
         return (ev[0], ev[1], {3: 2, 4: 1}[ev[2]])
+    if ev[0] == EV_PROC_FIRE and ev[1] == 2:
+        return (ev[0], 0)
     return ev
 
 
@@ -185,6 +266,7 @@ class Env(object):
     def __init__(self, rnd, log, store, fault=0.12, corrupt=0.0):
         self.rnd, self.log, self.store, self.fault, self.corrupt = rnd, log, store, fault, corrupt
         self.corrupted = 0             # replies garbled in transit (their decoding raises mid-way: outside the Gallina model)
+        self.proc_cancel = 0.0         # probability that a failing processor Deferred fails with CancelledError (its own timeout)
         self.lost_commits = 0.0        # probability that a commit answered by a retriable failure was applied by the coordinator
 
 
@@ -285,18 +367,22 @@ def honest_event(env, drv, weights):
     if t == EV_PLAN:
         return (t, rnd.choice([0] * 14 + [1, 2, 2, 3]), rnd.choice([0, 0, 0, 0, 0, 1, 2, 2, 2, 3, 3, 4]))
     if t == EV_PROC_FIRE:
-        return (t, rnd.choice([1, 1, 1, 1, 0]))
+        r = rnd.choice([1, 1, 1, 1, 0])
+        if r == 0 and env.proc_cancel and rnd.random() < env.proc_cancel:
+            r = 2          # it fails with CancelledError: the processor's own timeout (implementation-side families only)
+        return (t, r)
     return (t,)
 
 
 def honest_run(rnd, cfg, log, store, steps, weights=None, fault=0.12, first=None, drain=0, on_event=None, corrupt=0.0,
-               lost_commits=0.0, **kw):
+               lost_commits=0.0, driver_cls=None, proc_cancel=0.0, **kw):
     """-> (events, driver, env).  `first`: events applied first (e.g. the start).  `drain`: afterwards let the system
     run fault-free with a processor that returns at once for up to `drain` steps (for the completeness monitor)."""
     CL.quiet()
     env = Env(rnd, log, store, fault, corrupt)
     env.lost_commits = lost_commits
-    drv = LDriver(cfg, **kw)
+    env.proc_cancel = proc_cancel
+    drv = (driver_cls or LDriver)(cfg, **kw)
     drv.values_seen = []
     drv.escaped = None               # an exception that escaped a stimulus (never expected): recorded, the run ends
     events = []
@@ -367,8 +453,7 @@ def mon_req(events, steps, ends):
                 rk = None
             elif rk == R_OFFFETCH:
                 rk = None
-                if ev[1] != -1:
-                    lc = ev[1]
+                lc = ev[1] if ev[1] != -1 else NONE        # "nothing committed" is a report too (F-C03-4)
         elif t == EV_FETCH_OK and rk == R_FETCH:
             rk = None
         elif t == EV_REQ_FAIL:
@@ -534,6 +619,22 @@ def mon_never_idle(events, steps):
     return None
 
 
+def mon_giveup(events, steps, log, maxbuf):
+    """the consumer gives up with ConsumerFetchSizeTooSmall (start Deferred fails, OUT_START_D false FK_TOOSMALL) only when
+    the next message really does not fit max_buffer_size: otherwise that message and everything after it is never delivered"""
+    last = None
+    for i, (ev, outs) in enumerate(zip(events, steps)):
+        for o in outs:
+            if o[0] == OUT_FETCH:
+                last = o[1]
+            elif o[0] == OUT_START_D and o[1] == 0 and o[2] == CL.FK_TOOSMALL and last is not None:
+                unit = next((u for u in log.units if u.entries[-1][0] >= last and u.entries[-1][0] >= log.start), None)
+                if unit is not None and (maxbuf == -1 or len(unit.data) <= maxbuf):
+                    return ("step %d: the consumer gave up with ConsumerFetchSizeTooSmall at offset %d although the message there (%d bytes) "
+                            "fits max_buffer_size %s" % (i, last, len(unit.data), "None" if maxbuf == -1 else maxbuf))
+    return None
+
+
 def mon_values(values_seen, entries):
     """every message handed to the processor carries the key, value and absolute offset the broker stores"""
     truth = dict((o, (k, v)) for (o, k, v) in entries)
@@ -593,7 +694,7 @@ class ProcWindow(object):
         elif t == EV_PROC_FIRE and self.st and self.st[0] == "pending":
             blk = self.st[1]
             self.st = None
-            if ev[1]:
+            if ev[1] == 1:
                 self.lp = blk[-1]
                 self.done = self.done + blk
                 self.ok2 = self.ok2 + blk
